@@ -125,6 +125,16 @@ fn main() {
                 writeln!(out, "{}", dump::doc_of_source(cfg, &src)).unwrap();
             }
         }
+        // W TAB REORDER HEX -> DOC \t HEX(doc.pretty(W), before post-processing) | err | panic
+        "docr" => {
+            for line in stdin.lock().lines() {
+                let line = line.unwrap();
+                let mut it = line.split_whitespace();
+                let cfg = cfg_fields(&mut it);
+                let src = unhex(it.next().unwrap());
+                writeln!(out, "{}", dump::doc_and_render(cfg, &src)).unwrap();
+            }
+        }
         _ => {
             if !gen::dispatch(mode, &args[2..], &mut out) {
                 eprintln!("unknown mode {mode}");
